@@ -411,8 +411,15 @@ func build(rng *rand.Rand) ([]byte, string) {
 		// replaced later (a directory by a file by a symlink leading out ...)
 		name := []string{"a", "sentinel-dir", "x"}[rng.Intn(3)]
 		var chain []string
+		pattern := [][]string{nil, nil, {"dir-sub", "symlink"}, {"dir-sub", "file", "symlink"}, {"dir", "symlink", "dir-sub"}}[rng.Intn(5)]
 		for k := 0; k < 2+rng.Intn(3); k++ {
 			kd := []string{"dir", "dir-sub", "dir-sub", "emptydir", "file", "symlink", "symlink-file", "device"}[rng.Intn(8)]
+			if pattern != nil {
+				if k >= len(pattern) {
+					break
+				}
+				kd = pattern[k]
+			}
 			chain = append(chain, kd)
 			e.filename(name)
 			switch kd {
